@@ -206,6 +206,13 @@ func runPluginNames() int {
 		}
 		execPath := conc(in.ExecTarget)
 		base := filepath.Base(execPath)
+		// installing a plugin that is NEW to the root (half of the installations under a proper name): no sentinels, the
+		// directory comes into being by the installation
+		brandNew := (in.Op == "InstallFile" || in.Op == "InstallDir") && !in.Name.Abs && len(in.Name.Comps) == 1 && nameStr != "p" && nameStr != "q" &&
+			nameStr != "." && nameStr != ".." && nameStr != "" && mix(*flagSeed, c.ID, "new")%2 == 1
+		if brandNew {
+			execPath = filepath.Join(caseDir, "unused", "x")
+		}
 		if _, err := os.Lstat(execPath); err != nil && !strings.Contains(execPath, "\x00") && len(base) < 250 {
 			if os.MkdirAll(filepath.Dir(execPath), 0755) == nil {
 				nm := strings.TrimPrefix(base, "notation-")
@@ -213,7 +220,7 @@ func runPluginNames() int {
 			}
 		}
 		dirPath := conc(in.DirTarget)
-		if !strings.Contains(dirPath, "\x00") && len(filepath.Base(dirPath)) < 250 {
+		if !brandNew && !strings.Contains(dirPath, "\x00") && len(filepath.Base(dirPath)) < 250 {
 			_ = os.MkdirAll(dirPath, 0755)
 			_ = os.WriteFile(filepath.Join(dirPath, "inside.txt"), []byte("content of the target directory"), 0644)
 		}
@@ -229,12 +236,25 @@ func runPluginNames() int {
 				_ = os.WriteFile(filepath.Join(srcDir, "d", "LICENSE"), []byte("license"), 0644)
 			}
 		}
+		// a leftover from earlier times (half of the installations of "q"): <root>/q is a symbolic link to a directory elsewhere
+		// in the sandbox that holds no plugin; installing must not write through it
+		if (in.Op == "InstallFile" || in.Op == "InstallDir") && nameStr == "q" && mix(*flagSeed, c.ID, "link")%3 != 0 {
+			must(os.RemoveAll(filepath.Join(root, "q")))
+			must(os.MkdirAll(filepath.Join(top, "linktarget"), 0755))
+			must(os.WriteFile(filepath.Join(top, "linktarget", "kept.txt"), []byte("not a plugin"), 0644))
+			must(os.Symlink(filepath.Join(top, "linktarget"), filepath.Join(root, "q")))
+		}
 		before := snapTree(top)
 		mgr := plugin.NewCLIManager(dir.NewSysFS(root))
 		ctx := context.Background()
 		obs := PNObs{Execs: [][]string{}, Changed: [][]string{}, ListOK: true}
 		var opErr error
 		panicked, msg := guarded(func() {
+			if brandNew || mix(*flagSeed, c.ID, "used")%2 == 1 {
+				// the manager object has been used before (listing, a look-up): what follows must reflect the directory as it is then
+				_, _ = mgr.List(ctx)
+				_, _ = mgr.Get(ctx, "p")
+			}
 			switch in.Op {
 			case "Get":
 				var p pf.Plugin
